@@ -169,10 +169,30 @@ class AwaitablePayload:
         yield  # pragma: no cover
 
 
+class Lookalike:
+    """A plain value that merely EXPOSES an ``__await__`` attribute (set on the instance: a proxy, a stub, a record
+    with that field): ``await`` looks the slot up on the TYPE, so this is not awaitable - a result / item like any
+    other.  Calling the attribute is reported as a foreign action."""
+
+    def __init__(self, k: Any):
+        self.k = k
+        self.__await__ = self._touched
+
+    def _touched(self, *args: Any) -> Any:
+        from .loop import CTX as _ctx
+        _ctx.foreign.append(f"the library called __await__ of the non-awaitable value {self!r}")
+        return builtins.iter(())
+
+    def __repr__(self) -> str:
+        return f"Lookalike({self.k!r})"
+
+
 def decode(v: Any) -> Any:
     """Decode a JSON-able raw value."""
     if isinstance(v, list):
         tag = v[0]
+        if tag == "La":
+            return Lookalike(v[1])
         if tag == "Aw":
             return AwaitablePayload(v[1])
         if tag == "Op":
@@ -248,6 +268,7 @@ IMPLS: Dict[str, Callable[..., Any]] = {
     "mk": lambda *xs: Item(builtins.sum(_k(x) for x in xs), ("mk",) + builtins.tuple(_uid(x) for x in xs)),
     "tup": lambda *xs: xs,
     "none_or_item": lambda *xs: None if builtins.sum(_k(x) for x in xs) % 2 else xs[0],  # results may be None
+    "lookalike_result": lambda *xs: Lookalike(builtins.sum(_k(x) for x in xs)),  # not awaitable, only looks like it
     "falsy_result": lambda *xs: ("", 0, (), None)[builtins.sum(_k(x) for x in xs) % 4],
     # binary reductions
     "add": lambda a, b: a + b,
